@@ -139,6 +139,7 @@ DEVICES = {
     "SerialMonitor": ("d = SerialMonitor(9600)", ["d.write('x')"], False),
 }
 MOTOR_PINS = {"2", "3", "5"}
+REBOUND_PINS = {}
 
 
 def scenarios():
@@ -163,6 +164,15 @@ def scenarios():
     out["Led/rebound-other-pin-at-top-of-loop"] = "d = Led(5)\nd.on()\nwhile True:\n    d = Led(6)\n    d.toggle()\n    sleep(5)\n"
     out["Led/rebound-same-pin-at-top-of-loop"] = "d = Led(5)\nd.on()\nwhile True:\n    d = Led(5)\n    d.toggle()\n    sleep(5)\n"
     out["Servo/rebound-other-pin-at-top-of-loop"] = "d = Servo(6)\nd.write(10)\nwhile True:\n    d = Servo(9)\n    d.write(20)\n    sleep(5)\n"
+    # re-binding a name to a device on ANOTHER pin at the top of the loop body: from then on every command goes to the new pin
+    REBIND = {"Led": ("d = Led(5)", "d = Led(6)", "d.on()", ["5"], ["6"]), "RGBLed": ("d = RGBLed(9, 10, 11)", "d = RGBLed(3, 5, 6)", "d.set_color(1, 2, 3)", ["9", "10", "11"], ["3", "5", "6"]),
+              "DCMotor": ("d = DCMotor(2, 3, 5)", "d = DCMotor(7, 8, 9)", "d.set_speed(0.5)", ["2", "3", "5"], ["7", "8", "9"]),
+              "Button": ("d = Button(4)", "d = Button(12)", "mon.write(d.is_pressed())", ["4"], ["12"]),
+              "Potentiometer": ("d = Potentiometer('A0')", "d = Potentiometer('A3')", "mon.write(d.read())", ["14"], ["17"]),
+              "Ultrasonic": ("d = Ultrasonic(7, 12)", "d = Ultrasonic(2, 3)", "mon.write(d.measure_distance())", ["7", "12"], ["2", "3"])}
+    for kind, (d1, d2, use, oldp, newp) in REBIND.items():
+        out[f"{kind}/rebound-other-pins-at-top-of-loop"] = f"mon = SerialMonitor(9600)\n{d1}\n{use}\nwhile True:\n    {d2}\n    {use}\n    sleep(5)\n"
+        REBOUND_PINS[f"{kind}/rebound-other-pins-at-top-of-loop"] = (oldp, newp)
     out["Led+Button/same-script"] = "mon = SerialMonitor(9600)\nl = Led(13)\nb = Button(4)\nwhile True:\n    if b.is_pressed():\n        l.on()\n    else:\n        l.off()\n    sleep(5)\n"
     out["Led+Potentiometer+Servo"] = ("mon = SerialMonitor(9600)\nl = Led(13)\np = Potentiometer('A1')\ns = Servo(6)\nwhile True:\n    v = p.read()\n    s.write(v / 6)\n"
                                       "    l.set_brightness(v / 4)\n    mon.write(v)\n    sleep(5)\n")
@@ -231,7 +241,20 @@ def _t2_one(args):
         return name, "does-not-compile", r.get("errors", "")[-400:], src
     if r.get("timeout") or r.get("rc", 0) != 0:
         return name, "crash", r.get("stderr", "timeout")[-300:], src
-    probs = monitor(r["events"], motor="DCMotor" in name)
+    probs = monitor(r["events"], motor="DCMotor" in name and "rebound" not in name)
+    if name in REBOUND_PINS:
+        oldp, newp = REBOUND_PINS[name]
+        in_loop, touched_old, touched_new = False, set(), set()
+        for e in r["events"]:
+            if e.startswith("== loop"):
+                in_loop = True
+            elif in_loop and e.split(":")[0] in ("W", "R", "AR", "PI", "T", "N"):
+                pin = e.split(":")[1]
+                (touched_old if pin in oldp else touched_new if pin in newp else set()).add(pin)
+        if touched_old:
+            probs.append(f"after the name was re-bound to pins {newp}, loop() still drives / reads the old pin(s) {sorted(touched_old)}")
+        if not touched_new:
+            probs.append(f"after the name was re-bound to pins {newp}, loop() never touches them")
     used = any(e.split(":")[0] in ("W", "T", "N", "R", "PI", "SW", "SU", "L", "S", "AR") for e in r["events"])
     if not used:
         probs.append("the scenario's command left no event in setup() + 2 passes (vacuous run)")
@@ -268,6 +291,8 @@ def t3(P, E, out):
             lines.append(f"b{k} = Button({pin})")
         if anim:
             lines += ["lcd = LCD(rs=22, en=23, d4=24, d5=25, d6=26, d7=27)", "lcd.animate('scroll', 0, 'hello world', speed_ms=100)"]
+            if anim_in_body:
+                lines += ["lcd.animate('scroll', 1, 'second row too', speed_ms=100)"]
         if has_loop:
             lines += ["while True:"] + [f"    mon.write(b{k}.is_pressed())" for k in range(nb)] + ["    mon.write('user')"] + (
                 ["    lcd.animate('blink', 1, 'again', speed_ms=100)"] if anim_in_body else []) + ["    sleep(5)"]
@@ -279,6 +304,14 @@ def t3(P, E, out):
         except Exception as ex:
             bad.append({"buttons": nb, "animation": anim, "error": f"{type(ex).__name__}: {ex}", "script": src})
             continue
+        if anim:
+            # every started animation is advanced by exactly one tick call per pass
+            n_anim = sum(1 for l in lines if ".animate(" in l and not l.startswith("    "))
+            loop_txt = cpp[cpp.index("void loop()"):]
+            tick_vars = re.findall(r"__redu_lcd_tick_\w+\((__redu_lcd_anim_\w+)", loop_txt)
+            if has_loop and (len(tick_vars) < n_anim or len(set(tick_vars)) != len(tick_vars)):
+                bad.append({"buttons": nb, "animations_started_before_the_loop": n_anim, "tick_calls_in_loop": tick_vars, "script": src})
+                continue
         kinds = [type(x).__name__ for x in prog.loop_body]
         head = kinds[:nb + (1 if anim else 0)]
         want = ["ButtonPoll"] * nb + (["LCDTick"] if anim else [])
